@@ -80,12 +80,12 @@ POLICY_BRANCHES = ["add.oversize", "add.room", "add.update", "add.evict.1", "add
                    "add.reject.1", "add.tie", "add.fewer_than_samples", "add.over_budget_before", "remove.charged",
                    "remove.absent", "update.charged", "update.absent", "maxcost", "maxcost.below_used", "clear", "cost", "cap"]
 
-def cache_job(fields, name="cache", extra=None, quick_ops=200, quick_lives=20, thorough_ops=400, thorough_lives=60, seeds=None):
+def cache_job(fields, name="cache", extra=None, quick_ops=200, quick_lives=20, thorough_ops=500, thorough_lives=80, seeds=None):
     extra = extra or []
     return {"name": name, "driver": "cache", "fields": fields,
             "gen": lambda tier, seed: ["cache", "--seed", str(seed), "--ops", str(quick_ops if tier == "quick" else thorough_ops),
                                        "--lives", str(quick_lives if tier == "quick" else thorough_lives)] + extra,
-            "seeds": seeds or {"quick": 2, "thorough": 14}, "timeout": 3000}
+            "seeds": seeds or {"quick": 2, "thorough": 42}, "timeout": 3000}
 
 
 CACHE_ASSUME = [
